@@ -146,7 +146,7 @@ func (d *verifDCS) AcquireLock(path string) bool {
 	r := true
 	switch d.LockMode {
 	case 1:
-		r = verifnd.Bool("lock.acquire")
+		r = verifnd.Choose("lock.acquire", 2) == 0 // decided per call (callers branch on it immediately)
 	case 2:
 		r = false
 	}
